@@ -69,21 +69,21 @@ pub fn unit_count(prop: &str, tier: Tier) -> u64 {
         "C01" => (60_000, 6_000_000),
         "C02" => (50_000, 5_000_000),
         "C03" => (40_000, 4_000_000),
-        "C04" => (40_000, 4_000_000),
+        "C04" => (200_000, 20_000_000),
         "C05" => (40_000, 4_000_000),
-        "C06" => (30_000, 3_000_000),
+        "C06" => (60_000, 4_000_000),
         "C07" => (8_000, 600_000),
         "C08" => (8_000, 500_000),
         "C09" => (40_000, 4_000_000),
-        "C10" => (40_000, 4_000_000),
+        "C10" => (100_000, 6_000_000),
         "C11" => (6_000, 150_000),
-        "C12" => (60_000, 6_000_000),
-        "C17" => (20_000, 1_500_000),
+        "C12" => (300_000, 20_000_000),
+        "C17" => (100_000, 5_000_000),
         "C18" => (40_000, 3_000_000),
         "C19" => (400_000, 40_000_000),
-        "C13" => (6_000, 600_000),
-        "C16" => (60_000, 6_000_000),
-        "C15" => (6_000, 600_000),
+        "C13" => (20_000, 1_000_000),
+        "C16" => (200_000, 10_000_000),
+        "C15" => (20_000, 1_000_000),
         "C14" => (200_000, 20_000_000),
         "C20" => (20_000, 1_500_000),
         _ => (10_000, 500_000),
